@@ -230,12 +230,13 @@ func (s *serverSocket) close(reason Reason, err error) {
 
 		defer s.getCallbacks().OnClose(reason, err)
 
-		if reason != ReasonTransportClose && reason != ReasonTransportError {
-			s.transportMu.RLock()
-			defer s.transportMu.RUnlock()
-			if s.transport != nil {
-				s.transport.Close()
-			}
+		// Close the current transport in every case, also when a transport reported that it was closed:
+		// the transport that reported it may have been replaced by an upgrade in the meantime
+		// (the new one would stay open otherwise), and closing a closed transport does nothing.
+		s.transportMu.RLock()
+		defer s.transportMu.RUnlock()
+		if s.transport != nil {
+			s.transport.Close()
 		}
 	})
 }
